@@ -393,12 +393,60 @@ def r2_episodes(ck, repo, L):
 
 
 # ---------------------------------------------------------------------------------------------------
+def _done_assume(L, repo, a, b):
+    """Assumptions for one (terminated, truncated) row: the two step results and every record field / copy that holds them."""
+    from ..loops import Origins
+    cfg = L.cfg
+    tv, uv = L.pos.get(2), L.pos.get(3)
+    out = {tv: a, uv: b}
+    org = Origins(L)
+    org.repo = repo
+    for n in cfg.nodes:
+        if n.kind != "test" or not hasattr(n.ast, "test"):
+            continue
+        for x in ast.walk(n.ast.test):
+            if isinstance(x, ast.Attribute) and isinstance(x.value, ast.Name):
+                o = org.of_expr(x, n.id)
+                if o == {("step", 2)}:
+                    out[ast.unparse(x)] = a
+                elif o == {("step", 3)}:
+                    out[ast.unparse(x)] = b
+    return out
+
+
+def _done_fields(L, repo):
+    """test node -> {text of a record field read there: step position (2 / 3) it holds}."""
+    from ..loops import Origins
+    cfg = L.cfg
+    org = Origins(L)
+    org.repo = repo
+    out = {}
+    for n in cfg.nodes:
+        if n.kind != "test" or not hasattr(n.ast, "test"):
+            continue
+        for x in ast.walk(n.ast.test):
+            if isinstance(x, ast.Attribute) and isinstance(x.value, ast.Name):
+                o = org.of_expr(x, n.id)
+                if o in ({("step", 2)}, {("step", 3)}):
+                    out.setdefault(n.id, {})[ast.unparse(x)] = next(iter(o))[1]
+    return out
+
+
 def r3_done_reset(ck, repo, L):
     cfg, site, S = L.cfg, L.qual, L.step_node
     tv, uv = L.pos.get(2), L.pos.get(3)
     ck.need(tv and uv, f"{site}: terminated/truncated results are discarded (unrecognised idiom)")
     for a, b in ((True, False), (False, True), (True, True)):
-        p = cfg.paths_avoiding(S, S, set(L.resets_in), assume={tv: a, uv: b})
+        fields = _done_fields(L, repo)
+        p = cfg.paths_avoiding(S, S, set(L.resets_in), assume={tv: a, uv: b}, at_node=lambda nid_, a=a, b=b: {t_: (a if pos_ == 2 else b) for t_, pos_ in fields.get(nid_, {}).items()})
+        if p is not None:
+            # the witness is only as good as the tests on it: a test that reads a field of a local object (a tracker / record this
+            # analysis cannot follow) and stayed undecided makes the path unreliable
+            acc = _done_assume(L, repo, a, b)
+            for x_ in p:
+                nx = cfg.nodes[x_]
+                if nx.kind == "test" and hasattr(nx.ast, "test") and cfg.eval3(nx.ast.test, acc, x_) is None and any(isinstance(y, ast.Attribute) and isinstance(y.value, ast.Name) and y.value.id not in param_names(L.fn) for y in ast.walk(nx.ast.test)):
+                    raise AnalysisError(f"{site}: whether an ended episode is stepped again depends on `{short(nx.ast.test, 50)}` (state kept in an object: unrecognised form)")
         row = f"terminated={a},truncated={b}"
         ck.ob("R3-done-reset", site, row, p is None, f"{row}: step -> step without reset",
               "" if p is None else f"with {row} the loop steps the ended episode again without env.reset()", loc(L.mi, L.step_stmt),
@@ -469,14 +517,51 @@ def r4_warmup(ck, repo, L, res, learn_set):
                 if _is_warm(txt, truth, cvar):
                     ok = True
         if not ok:
+            # path reading: during warm-up (counter < learning_starts) the call must not be reachable from the loop header
+            warm_cmps = {}
+            for m_ in cfg.nodes:
+                if m_.id not in body or m_.ast is None:
+                    continue
+                for x in ast.walk(m_.ast.test if m_.kind == "test" and hasattr(m_.ast, "test") else m_.ast):
+                    if isinstance(x, ast.Compare) and len(x.ops) == 1:
+                        l_, r_ = x.left, x.comparators[0]
+                        names_ = {getattr(l_, "id", None), getattr(r_, "id", None)}
+                        if names_ == {cvar, "learning_starts"}:
+                            opn_ = type(x.ops[0]).__name__
+                            if isinstance(l_, ast.Name) and l_.id == "learning_starts":
+                                opn_ = {"Lt": "Gt", "LtE": "GtE", "Gt": "Lt", "GtE": "LtE"}.get(opn_, opn_)
+                            # truth value of `counter <op> learning_starts` while counter < learning_starts
+                            val_ = {"Lt": True, "LtE": True, "Gt": False, "GtE": False, "Eq": False, "NotEq": True}.get(opn_)
+                            if val_ is not None:
+                                warm_cmps[ast.unparse(x)] = val_
+            p_ = None
+            if warm_cmps:
+                p_ = cfg.paths_avoiding(L.outer_header, nid, {L.outer_header}, assume=warm_cmps, first_label=True)
+                if p_ is None:
+                    ok = True
+        wit = None
+        if not ok:
             tg = _trip_gate(cfg, nid, cvar, L.outer_header)
             if tg is True:
                 ok = True
             elif tg is None:
                 raise AnalysisError(f"{site}: the number of updates per step `{short(c, 40)}` runs under is computed in a way this rule does not read (cannot decide the warm-up gate)")
+            elif p_ is not None:
+                # a witness path during warm-up: trustworthy when every test on it that involves the counter / learning_starts was decided
+                undecided = []
+                acc = dict(warm_cmps)
+                for a_, b_ in zip(p_, p_[1:]):
+                    na = cfg.nodes[a_]
+                    if na.kind == "test" and hasattr(na.ast, "test"):
+                        names_ = {x.id for x in ast.walk(na.ast.test) if isinstance(x, ast.Name)}
+                        if names_ & {cvar, "learning_starts"} and cfg.eval3(na.ast.test, acc, a_) is None and not (names_ & {cvar}) <= names_ - {"learning_starts"} - {cvar} | {cvar} and "learning_starts" in names_:
+                            undecided.append(short(na.ast.test, 40))
+                if undecided:
+                    raise AnalysisError(f"{site}: whether `{short(c, 40)}` runs during warm-up depends on {undecided[:2]} (cannot decide the warm-up gate)")
+                wit = cfg.describe_path(p_)
         ck.ob("R4-warmup", site, f"gate:{q.rsplit('.', 1)[1]}", ok, f"`{short(c, 60)}`",
               "" if ok else f"learning call is not guarded by `{cvar} >= learning_starts` although `learning_starts` is documented as the warm-up: updates start too early",
-              loc(L.mi, c))
+              loc(L.mi, c), wit)
 
 
 def _trip_gate(cfg, nid, cvar, outer):
